@@ -31,6 +31,9 @@ pub struct RegisteredInstanceInfo {
     pub instance_handle: InstanceHandle,
     pub last_write_time: Option<Time>,
     pub samples: VecDeque<i64>,
+    /// False once the instance has been unregistered; the entry is kept for the bookkeeping
+    /// of the samples that are still in the history
+    pub registered: bool,
 }
 
 #[derive(Default)]
@@ -76,20 +79,21 @@ impl<T: RtpsWriter> DataWriterEntity<T> {
         message_writer: &(impl WriteMessage + ?Sized),
         runtime: &impl DdsRuntime,
     ) -> DdsResult<()> {
-        if !self
+        if let Some(instance_info) = self
             .registered_instance_info
-            .iter()
-            .any(|x| x.instance_handle == sample_instance_handle)
+            .iter_mut()
+            .find(|x| x.instance_handle == sample_instance_handle)
         {
-            if self.registered_instance_info.len() < self.qos.resource_limits.max_instances {
-                self.registered_instance_info.push(RegisteredInstanceInfo {
-                    instance_handle: sample_instance_handle,
-                    last_write_time: None,
-                    samples: VecDeque::new(),
-                });
-            } else {
-                return Err(DdsError::OutOfResources);
-            }
+            instance_info.registered = true;
+        } else if self.registered_instance_info.len() < self.qos.resource_limits.max_instances {
+            self.registered_instance_info.push(RegisteredInstanceInfo {
+                instance_handle: sample_instance_handle,
+                last_write_time: None,
+                samples: VecDeque::new(),
+                registered: true,
+            });
+        } else {
+            return Err(DdsError::OutOfResources);
         }
 
         if let Length::Limited(max_samples_per_instance) =
@@ -192,7 +196,7 @@ impl<T: RtpsWriter> DataWriterEntity<T> {
         let Some(instance_info) = self
             .registered_instance_info
             .iter_mut()
-            .find(|x| x.instance_handle == instance_handle)
+            .find(|x| x.instance_handle == instance_handle && x.registered)
         else {
             return Err(DdsError::BadParameter);
         };
@@ -242,11 +246,13 @@ impl<T: RtpsWriter> DataWriterEntity<T> {
             .find(|x| x.instance_handle == instance_handle)
         {
             instance_info.last_write_time = Some(timestamp);
+            instance_info.registered = true;
         } else if self.registered_instance_info.len() < self.qos.resource_limits.max_instances {
             self.registered_instance_info.push(RegisteredInstanceInfo {
                 instance_handle,
                 last_write_time: Some(timestamp),
                 samples: VecDeque::new(),
+                registered: true,
             });
         } else {
             return Err(DdsError::OutOfResources);
@@ -278,12 +284,13 @@ impl<T: RtpsWriter> DataWriterEntity<T> {
         let Some(instance_info) = self
             .registered_instance_info
             .iter_mut()
-            .find(|x| x.instance_handle == instance_handle)
+            .find(|x| x.instance_handle == instance_handle && x.registered)
         else {
             return Err(DdsError::BadParameter);
         };
 
         instance_info.last_write_time = None;
+        instance_info.registered = false;
 
         let serialized_key =
             serialize(key_holder_data.as_dynamic_data(), &self.qos.representation)?;
